@@ -86,7 +86,7 @@ func writeEvidence(prop, tier string, seed uint64, engines []Engine, a *aggregat
 	assumptions := []string{
 		"the reference model (slot forest, /verif/sim/model.go) is a faithful reading of the property text; it shares no code with the library",
 		"seeded search samples the scenario space; a clean batch is evidence, not proof",
-		"SHA-512/256 collisions are ignored; leaf hashes are treated as digests: two live leaves never carry the same hash and no leaf carries the bytes (or a 12-byte prefix) of another node's hash, except in the verifier-only profiles where all leaves share a 27-byte prefix; the hash of a deleted leaf may come back",
+		"SHA-512/256 collisions are ignored; leaf hashes are treated as digests: two live leaves never carry the same hash, and no forest instance is given a leaf that carries the bytes (or a 12-byte prefix) of another node's hash, except in the profiles where all leaves share a 27-byte prefix; the hash of a deleted leaf may come back. What works on roots and proofs alone (AddProof, GetProofSubset, GetMissingPositions, stand-alone Verify, Stump.Update, and GetMissingPositions + VerifyPartialProof on a fresh partial forest created from roots) is also asked about states in which a live leaf carries the hash of an internal node or root",
 	}
 	for _, e := range engines {
 		if ea, ok := e.(interface{ Assumptions() []string }); ok {
